@@ -41,6 +41,9 @@ CLAIMED = {
     "C17": dict(technique="TLA+ models (Elision, NoiseTable, Aliasing) checked by TLC, every state / behaviour executed on the implementation", ref="5 C17",
                 text=FUNC_TEXT + " Aliasing.tla is a state machine over a heap of live objects (construct, construct from shared arguments, decode, serialise, mutate) whose behaviours are replayed with deep snapshots of every other live object.",
                 note=FUNC_NOTE, engine="tlc-func"),
+    "C20": dict(technique="TLA+ references (QuditAlgebra, Observables, ObsResults) enumerated by TLC, every state / behaviour executed on the implementation", ref="5 C20",
+                text=FUNC_TEXT + " QuditAlgebra.tla is a Gaussian-integer reference of operator / state representations, the matrix algebra and every default observable (kets, pure and mixed density matrices, 2-4 levels, 1-4 qudits); ObsResults.tla is the Results store as a state machine and the rule for which evaluation times each observable stores; stored values of QutipBackendV2 runs are compared with the definition evaluated on the state and Hamiltonian the backend handed to a spy observable.",
+                note=FUNC_NOTE, engine="tlc-func"),
     "C05": dict(technique="TLA+ reference (Hamiltonian.tla structure + PulserRender.tla per-atom drive) checked by TLC, compared entrywise with QutipEmulator.get_hamiltonian on TLC-generated behaviours", ref="5 C05",
                 text="TLC enumerates the matrix structure of the documented Hamiltonian (Hamiltonian.tla: which entry carries which term in the documented level order and register tensor order; Hermiticity, locality and counting laws checked by TLC) and, for every behaviour of the render configurations explored from the scheduler model, the per-atom Omega/delta/phi attribution (PulserRender.tla); the harness evaluates the terms numerically and compares QutipEmulator.get_hamiltonian(t) entry by entry at the segment boundaries of every reachable state.",
                 note="bounded: 3 atoms, the render configurations (global/local/multi-target channels, DMM weights, SLM mask, XY with magnetic field), up to 10 sample times per state; trusted: the 20-line numeric evaluation of a term, qutip's full(); times where several pulses of different phase act on one atom and basis are not compared (not specified)"),
